@@ -1588,9 +1588,23 @@ func (h *fsmHandler) opensent(ctx context.Context) (bgp.FSMState, *fsmStateReaso
 			case e = <-recvChan:
 			default:
 			}
-			if e != nil {
-				nextState, _, _ := fsm.handleOpen(e)
-				if nextState == bgp.BGP_FSM_OPENCONFIRM {
+			if e == nil {
+				// No OPEN was received on the incoming connection, so the
+				// outgoing connection is used. Close the incoming connection:
+				// otherwise it is leaked and its receive goroutine, which the
+				// deferred wg.Wait() waits for, blocks until the remote sends
+				// something.
+				_ = fsm.sendCollisionCease(incomingConn)
+			} else {
+				nextState, _, notif := fsm.handleOpen(e)
+				if nextState != bgp.BGP_FSM_OPENCONFIRM {
+					// invalid OPEN on the incoming connection; drop it
+					if notif != nil {
+						_ = fsm.sendNotification(incomingConn, notif)
+					} else {
+						incomingConn.Close()
+					}
+				} else {
 					// collision detected
 					isDominant := fsm.isDominant(result.open.Body.(*bgp.BGPOpen))
 					if isDominant {
